@@ -340,6 +340,10 @@ func init() {
 					for agg := 0; agg < 4; agg++ {
 						for na := 0; na <= 2; na++ {
 							rs = append(rs, HRun{Pkg: "./dig", Fn: "ZZ_C12_Fold", Params: []int{op1, op2, agg, na}})
+							if na >= 1 && agg <= 1 && (op1 == -1 || tier == "thorough") {
+								// whole addresses mixed with a shorter byte pattern
+								rs = append(rs, HRun{Pkg: "./dig", Fn: "ZZ_C12_Fold", Params: []int{op1, op2, agg, 10 + na}, Label: "short-address-pattern"})
+							}
 						}
 					}
 				}
